@@ -1,4 +1,5 @@
 import ActixModel.Proofs.QuoterSpec
+import ActixModel.Proofs.PatternDef
 /-
 C10 — path patterns match exactly their language; partial percent-decoding decodes every
 non-protected valid escape and nothing else.
@@ -85,6 +86,8 @@ theorem C10_requote_sep {prot : Bytes} {q : Quoter} (hq : Quoter.mk? prot = some
   exact decodeAll_eq_spec hq a
 
 example : Quoter.mk? [37, 47, 43] = some defaultQuoter := rfl
+-- `/` satisfies the hypotheses on the separator
+example : (47 : UInt8) ∈ [37, 47, 43] ∧ (47 : UInt8) ≠ 37 ∧ isHexDigit 47 = false := by decide
 
 /-- **C10_requote_slash**: the default quoter of `Url::new` (protected `%/+`) preserves the
 segment structure of every path: `split('/')` commutes with decoding. -/
@@ -182,5 +185,514 @@ theorem C10_requote_roundtrip (prot : Bytes) (bs : Bytes) :
       simp only [encodeAll] at hesc ⊢
       rw [decodeSpec, hesc]
       simp
+
+
+/-! # Part 2: path patterns (`actix-router/src/resource.rs`), model `Model/Pattern.lean`
+
+Spec: `Spec/C10.lean` — `LangRe`, `LangSegs`, `SuffixOk`, `LangDyn`, `Matches` (inductive language
+of a pattern, no priorities), `Substr`, `SpansOk`.  `fresh path` is `Path::new(path)`.
+All theorems quantify over every `ResourceDef` value of the model (static, dynamic with any
+regex of the fragment, pattern lists of any length), every path (any Unicode string, any
+length unless a bound is stated).  -/
+
+open ActixModel.Pattern
+
+/-- **C10_three_agree**: for every resource definition and every path, `is_match`,
+`find_match` and `capture_match_info` (on a fresh `Path`) agree on *whether* the path matches,
+`capture_match_info` never panics, and the matched length stored in the path is the one
+`find_match` reports (as a `u16`). -/
+theorem C10_three_agree (rd : ResourceDef) (path : List Char) :
+    rd.isMatch path = (rd.findMatch path).isSome ∧
+    (rd.captureMatchInfo (fresh path) = .noMatch ↔ rd.isMatch path = false) ∧
+    (∀ n, rd.findMatch path = some n →
+      ∃ segs, rd.captureMatchInfo (fresh path) =
+        .matched { path := path, skip := asU16 n, segments := segs }) := by
+  unfold ResourceDef.isMatch ResourceDef.findMatch ResourceDef.captureMatchInfo
+  cases hpt : rd.patType with
+  | «static» p =>
+    simp only [fresh_unprocessed]
+    cases hs : staticMatch rd.isPrefix p path with
+    | none => simp
+    | some len =>
+      refine ⟨by simp, by simp [commit_fresh], ?_⟩
+      intro n hn
+      injection hn with hn
+      subst hn
+      exact ⟨[], commit_fresh path len [] (by simp)⟩
+  | dynamic d =>
+    simp only
+    refine ⟨dyn_agree d path, ?_, ?_⟩
+    · cases hc : d.captures path with
+      | none =>
+        rw [captureDyn_fresh_none hc]
+        have := captures_isSome d path
+        rw [hc] at this
+        simp [← this]
+      | some r =>
+        obtain ⟨n, caps⟩ := r
+        obtain ⟨vars, _, hm⟩ := captureDyn_fresh_some hc
+        rw [hm]
+        have := captures_isSome d path
+        rw [hc] at this
+        simp [← this]
+    · intro n hn
+      cases hc : d.captures path with
+      | none => rw [hc] at hn; cases hn
+      | some r =>
+        obtain ⟨n', caps⟩ := r
+        rw [hc] at hn
+        simp only [Option.map_some, Option.some.injEq] at hn
+        subst hn
+        obtain ⟨vars, _, hm⟩ := captureDyn_fresh_some hc
+        exact ⟨vars, hm⟩
+  | dynamicSet ds =>
+    simp only [fresh_unprocessed]
+    cases hf : firstMatchIdx ds path with
+    | none =>
+      have := firstMatchIdx_none.mp hf
+      simp [this]
+    | some i =>
+      obtain ⟨d, hget, hm, _⟩ := firstMatchIdx_some hf
+      have hany : ds.any (·.isMatchRe path) = true :=
+        List.any_eq_true.mpr ⟨d, List.mem_of_getElem? hget, hm⟩
+      simp only [hget, hany]
+      have hsome : (d.captures path).isSome = true := by rw [captures_isSome]; exact hm
+      cases hc : d.captures path with
+      | none => rw [hc] at hsome; cases hsome
+      | some r =>
+        obtain ⟨n, caps⟩ := r
+        obtain ⟨vars, _, hcm⟩ := captureDyn_fresh_some hc
+        refine ⟨by simp, by simp [hcm], ?_⟩
+        intro n' hn'
+        simp only [Option.map_some, Option.some.injEq] at hn'
+        subst hn'
+        exact ⟨vars, hcm⟩
+
+example : ∃ rd, parsePattern false (.single ['/', 'u', '/', '{', 'i', 'd', '}']) = .ok rd ∧
+    rd.isMatch ['/', 'u', '/', '7'] = true ∧ rd.findMatch ['/', 'u', '/', '7'] = some 4 := by
+  refine ⟨_, rfl, ?_, ?_⟩ <;> decide
+
+/-- **C10_sound**: whenever `capture_match_info` succeeds on a path shorter than 64 KiB, the
+path is in the pattern's language (`Matches`: static text / segment languages / boundary suffix /
+first matching pattern of a list), the stored matched length is the byte length of the matched
+prefix, and the stored segments are, in order and under the right names, the byte spans of the
+values — **C10_captures_exact** (1): every captured value is the substring at its offsets. -/
+theorem C10_sound (rd : ResourceDef) (hwf : DefWF rd) (path : List Char) (hlen : blen path < 65536)
+    (st : PathState) (h : rd.captureMatchInfo (fresh path) = .matched st) :
+    ∃ vals, Matches rd path st.skip vals ∧ st.path = path ∧ SpansOk path st.skip st.segments vals := by
+  unfold ResourceDef.captureMatchInfo at h
+  unfold Matches
+  unfold DefWF at hwf
+  cases hpt : rd.patType with
+  | «static» p =>
+    rw [hpt] at h
+    simp only [fresh_unprocessed] at h
+    cases hs : staticMatch rd.isPrefix p path with
+    | none => rw [hs] at h; cases h
+    | some len =>
+      rw [hs] at h
+      simp only at h
+      rw [commit_fresh path len [] (by simp)] at h
+      injection h with h
+      subst h
+      obtain ⟨rest, hp, hn, hb⟩ := (static_iff _ _ _ _).mp hs
+      have : asU16 len = len := asU16_of_lt (by
+        have := blen_le_of_append hp; omega)
+      exact ⟨[], ⟨rest, hp, by rw [this]; exact hn, rfl, hb⟩, rfl, by simp [SpansOk]⟩
+  | dynamic d =>
+    rw [hpt] at h hwf
+    exact captureDyn_sound hwf hlen h
+  | dynamicSet ds =>
+    rw [hpt] at h hwf
+    simp only [fresh_unprocessed] at h
+    cases hf : firstMatchIdx ds path with
+    | none => rw [hf] at h; cases h
+    | some i =>
+      rw [hf] at h
+      obtain ⟨d, hget, hm, hfirst⟩ := firstMatchIdx_some hf
+      simp only [hget] at h
+      obtain ⟨vals, hl, hp, hs⟩ := captureDyn_sound (hwf d (List.mem_of_getElem? hget)) hlen h
+      refine ⟨vals, ⟨i, d, hget, hl, ?_⟩, hp, hs⟩
+      intro j d' hj hget' hex
+      have := hfirst j d' hj hget'
+      rw [(isMatchRe_iff d' path).mpr hex] at this
+      cases this
+
+-- the hypotheses of `C10_sound` are satisfiable: a parsed definition, a short path, a real match
+example : DefWF ⟨false, .dynamic ⟨[.const ['/'], .var ['a'] defaultRe], .eos⟩, []⟩ ∧
+    blen ['/', 'é', '1'] < 65536 ∧
+    (ResourceDef.mk false (.dynamic ⟨[.const ['/'], .var ['a'] defaultRe], .eos⟩) []).captureMatchInfo
+      (fresh ['/', 'é', '1']) = .matched { path := ['/', 'é', '1'], skip := 4, segments := [(['a'], 1, 4)] } := by
+  refine ⟨?_, by decide, by decide⟩
+  show allDistinct _ = true
+  decide
+
+/-- **C10_complete**: every path in the pattern's language is matched (by all three ways, by
+`C10_three_agree`). -/
+theorem C10_complete (rd : ResourceDef) (path : List Char) (n : Nat) (vals : List (Name × List Char))
+    (h : Matches rd path n vals) : rd.isMatch path = true := by
+  unfold Matches at h
+  unfold ResourceDef.isMatch
+  cases hpt : rd.patType with
+  | «static» p =>
+    rw [hpt] at h
+    obtain ⟨rest, hp, hn, _, hb⟩ := h
+    have := (static_iff rd.isPrefix p path n).mpr ⟨rest, hp, hn, hb⟩
+    simp [this]
+  | dynamic d =>
+    rw [hpt] at h
+    exact (isMatchRe_iff d path).mpr ⟨n, vals, h⟩
+  | dynamicSet ds =>
+    rw [hpt] at h
+    obtain ⟨i, d, hget, hl, _⟩ := h
+    exact List.any_eq_true.mpr ⟨d, List.mem_of_getElem? hget, (isMatchRe_iff d path).mpr ⟨n, vals, hl⟩⟩
+
+/-- the language of the default segment `[^/]+` is "a non-empty run without `/`" -/
+theorem C10_default_segment (w : List Char) : LangRe defaultRe w ↔ (w ≠ [] ∧ '/' ∉ w) := by
+  constructor
+  · intro h
+    cases h with
+    | cons hr hl =>
+      have := langRe_nil hl
+      subst this
+      obtain ⟨hall, hmin, _⟩ := hr
+      rename_i w'
+      simp only [List.append_nil]
+      refine ⟨by intro e; subst e; simp at hmin, ?_⟩
+      intro hmem
+      have := hall '/' hmem
+      simp [Atom.matches, inRanges] at this
+  · rintro ⟨hne, hno⟩
+    have : LangRe defaultRe (w ++ []) := by
+      refine .cons ⟨?_, ?_, by simp⟩ .nil
+      · intro c hc
+        have hc' : c ≠ '/' := by intro e; subst e; exact hno hc
+        simp only [Atom.matches, inRanges, Bool.or_false, bne_iff_ne, ne_eq, Bool.true_eq,
+          Bool.and_eq_true, decide_eq_true_eq, not_and]
+        intro h1 h2
+        exact hc' (Char.le_antisymm h2 h1)
+      · cases w with
+        | nil => exact absurd rfl hne
+        | cons _ _ => simp
+    simpa using this
+
+/-- the language of a tail segment `.*` is every string (including `/` and newlines) -/
+theorem C10_tail_segment (w : List Char) : LangRe tailRe w := by
+  have : LangRe tailRe (w ++ []) := .cons ⟨by intro c _; rfl, by simp, by simp⟩ .nil
+  simpa using this
+
+/-- **C10_parse_param**: the parser really gives `{name}` the default language and `{name}*`
+(at the very end of the pattern) the tail language: for every name without braces and colon,
+`parse_param` returns the default regex `[^/]+` with the rest of the pattern untouched, or — iff
+the rest is exactly `*` — the tail regex `.*`, the tail flag, and nothing left. -/
+theorem C10_parse_param (name rest : List Char) (hn : plainName name) :
+    parseParam ('{' :: name ++ '}' :: rest) =
+      if rest = ['*'] then .ok ⟨name, tailRe, [], true⟩ else .ok ⟨name, defaultRe, rest, false⟩ :=
+  parseParam_plain name rest hn
+
+example : plainName ['i', 'd'] := by unfold plainName; decide
+
+/-- **C10_tail_whole**: a definition that ends in a tail segment (`…{name}*`, no suffix anchor)
+always matches to the very end of the path: the reported length is the whole path (the tail
+"captures the remaining path portion"). -/
+theorem C10_tail_whole (d : DynPat) (pre : List Seg) (n : Name)
+    (hd : d.segs = pre ++ [.var n tailRe]) (hs : d.suffix = .open) (isPrefix : Bool) (path : List Char)
+    (len : Nat) (h : (ResourceDef.mk isPrefix (.dynamic d) d.segs).findMatch path = some len) :
+    len = blen path := by
+  simp only [ResourceDef.findMatch] at h
+  cases hc : d.captures path with
+  | none => rw [hc] at h; cases h
+  | some r =>
+    obtain ⟨len', caps⟩ := r
+    rw [hc] at h
+    simp only [Option.map_some, Option.some.injEq] at h
+    subst h
+    exact captures_tail_whole d pre n hd hs path _ caps hc
+
+/-- **C10_captures_exact** (2): `Path::get` returns exactly the matched substrings (never a
+slicing panic), and the static texts concatenated with the values are the matched prefix. -/
+theorem C10_captures_exact (d : DynPat) (isPrefix : Bool) (hwf : DynWF d) (path : List Char)
+    (hlen : blen path < 65536) (st : PathState)
+    (h : (ResourceDef.mk isPrefix (.dynamic d) d.segs).captureMatchInfo (fresh path) = .matched st) :
+    ∃ (vals : List (Name × List Char)) (m rest : List Char), path = m ++ rest ∧ blen m = st.skip ∧
+      st.values = vals.map (fun v => (v.1, some v.2)) ∧
+      buildSegs d.segs (vals.map (·.2)) = (m, true) := by
+  obtain ⟨vals, hm, hp, hs⟩ := C10_sound (ResourceDef.mk isPrefix (.dynamic d) d.segs) hwf path hlen st h
+  obtain ⟨m, rest, hpath, hl, _, hn⟩ := hm
+  refine ⟨vals, m, rest, hpath, hn.symm, ?_, by simpa using buildSegs_lang hl []⟩
+  unfold PathState.values
+  rw [hp]
+  exact spansOk_values hs
+
+/-- **C10_build_concat**: a path built from values that lie in their segments' languages is in
+the pattern's language — and therefore matches (`C10_complete`). -/
+theorem C10_build_match (d : DynPat) (isPrefix : Bool) (m : List Char) (vals : List (Name × List Char))
+    (hl : LangSegs d.segs m vals) :
+    (ResourceDef.mk isPrefix (.dynamic d) d.segs).build (vals.map (·.2)) = (m, true) ∧
+    (ResourceDef.mk isPrefix (.dynamic d) d.segs).isMatch m = true := by
+  refine ⟨by simpa [ResourceDef.build] using buildSegs_lang hl [], ?_⟩
+  apply C10_complete _ m (blen m) vals
+  refine ⟨m, [], by simp, hl, ?_, rfl⟩
+  cases d.suffix <;> simp [SuffixOk]
+
+/-
+FULL STATEMENT (false of the code, see `witness_build_ambiguous`):
+  theorem C10_build_values (d isPrefix m vals) (hl : LangSegs d.segs m vals) (hwf) (hlen) :
+      ∃ st, capture (fresh m) = .matched st ∧ st.values = vals.map (fun v => (v.1, some v.2))
+i.e. "a path built from a pattern and values … yields those values back".
+-/
+
+/-- **C10_build_values_partial**: building then capturing gives the values back *when the built
+path has only one decomposition into the pattern's segments* (extra hypothesis `huniq`).  Without
+it, the captured values still re-build the very same path when the pattern is a full
+(non-prefix, non-tail) one — second conjunct. -/
+theorem C10_build_values_partial (d : DynPat) (isPrefix : Bool) (hwf : DynWF d) (m : List Char)
+    (vals : List (Name × List Char)) (hl : LangSegs d.segs m vals) (hlen : blen m < 65536) :
+    ∃ st vals', (ResourceDef.mk isPrefix (.dynamic d) d.segs).captureMatchInfo (fresh m) = .matched st ∧
+      st.values = vals'.map (fun v => (v.1, some v.2)) ∧
+      ((∀ n' v', LangDyn d m n' v' → v' = vals) → vals' = vals) ∧
+      (d.suffix = .eos → buildSegs d.segs (vals'.map (·.2)) = (m, true)) := by
+  have hmatch := (C10_build_match d isPrefix m vals hl).2
+  have h3 := C10_three_agree (ResourceDef.mk isPrefix (.dynamic d) d.segs) m
+  cases hf : (ResourceDef.mk isPrefix (.dynamic d) d.segs).findMatch m with
+  | none => rw [h3.1, hf] at hmatch; cases hmatch
+  | some n =>
+    obtain ⟨segs, hcap⟩ := h3.2.2 n hf
+    obtain ⟨vals', hm, hp, hs⟩ := C10_sound (ResourceDef.mk isPrefix (.dynamic d) d.segs) hwf m hlen _ hcap
+    refine ⟨_, vals', hcap, ?_, ?_, ?_⟩
+    · unfold PathState.values
+      exact spansOk_values hs
+    · intro huniq
+      exact huniq _ vals' hm
+    · intro heos
+      obtain ⟨m', rest, hpath, hl', hsfx, _⟩ := hm
+      rw [heos] at hsfx
+      simp only [SuffixOk] at hsfx
+      subst hsfx
+      simp only [List.append_nil] at hpath
+      subst hpath
+      simpa using buildSegs_lang hl' []
+
+/-- **C10_build_values_separated**: for the usual slash-separated full patterns (every dynamic
+segment excludes `/` and is followed by `/…` or the end — e.g. only default segments between
+slashes) the extra hypothesis holds: building a path from values and capturing it again gives
+exactly those values back. -/
+theorem C10_build_values_separated (d : DynPat) (isPrefix : Bool) (hwf : DynWF d)
+    (hsep : Separated d.segs) (heos : d.suffix = .eos) (m : List Char)
+    (vals : List (Name × List Char)) (hl : LangSegs d.segs m vals) (hlen : blen m < 65536) :
+    ∃ st, (ResourceDef.mk isPrefix (.dynamic d) d.segs).captureMatchInfo (fresh m) = .matched st ∧
+      st.values = vals.map (fun v => (v.1, some v.2)) := by
+  obtain ⟨st, vals', hcap, hv, huniq, _⟩ := C10_build_values_partial d isPrefix hwf m vals hl hlen
+  refine ⟨st, hcap, ?_⟩
+  rw [hv, huniq ?_]
+  intro n' v' hdyn
+  obtain ⟨m', rest, hpath, hl', hsfx, _⟩ := hdyn
+  rw [heos] at hsfx
+  simp only [SuffixOk] at hsfx
+  subst hsfx
+  simp only [List.append_nil] at hpath
+  subst hpath
+  exact langSegs_unique hsep hl' hl
+
+example : Separated [.const ['/', 'u', '/'], .var ['i', 'd'] defaultRe, .const ['/', 'p', '/'],
+    .var ['t'] defaultRe] :=
+  ⟨fun w h => ((C10_default_segment w).mp h).2, Or.inr ⟨_, _, rfl⟩,
+    fun w h => ((C10_default_segment w).mp h).2, Or.inl rfl, trivial⟩
+
+/-- the pattern `/{a}{b}` as `parse` produces it -/
+def ambiguousPat : DynPat :=
+  ⟨[.const ['/'], .var ['a'] defaultRe, .const [], .var ['b'] defaultRe], .eos⟩
+
+example : parsePattern false (.single ['/', '{', 'a', '}', '{', 'b', '}']) =
+    .ok ⟨false, .dynamic ambiguousPat, ambiguousPat.segs⟩ := by rfl
+
+/-- **witness_build_ambiguous**: the full statement fails: `/{a}{b}` built from `("x1","y2")` is
+`/x1y2`; both values are non-empty runs without `/`, but the capture returns `("x1y","2")`. -/
+theorem witness_build_ambiguous :
+    LangSegs ambiguousPat.segs ['/', 'x', '1', 'y', '2'] [(['a'], ['x', '1']), (['b'], ['y', '2'])] ∧
+    ∃ st, (ResourceDef.mk false (.dynamic ambiguousPat) ambiguousPat.segs).captureMatchInfo
+        (fresh ['/', 'x', '1', 'y', '2']) = .matched st ∧
+      st.values = [(['a'], some ['x', '1', 'y']), (['b'], some ['2'])] := by
+  refine ⟨?_, _, rfl, by decide⟩
+  have h1 : LangRe defaultRe ['x', '1'] := (C10_default_segment _).mpr (by decide)
+  have h2 : LangRe defaultRe ['y', '2'] := (C10_default_segment _).mpr (by decide)
+  exact .const (cs := ['/']) (.var h1 (.const (cs := []) (.var h2 .nil)))
+
+/-- **witness_u16_truncation**: beyond 64 KiB the `as u16` casts do truncate: a group that the
+regex reports at bytes 1..65537 is stored as 1..1 (the hypothesis `blen path < 65536` of
+`C10_sound` cannot be dropped; the corpus replays it on the real code). -/
+theorem witness_u16_truncation :
+    collectSegments [(['a'], 1, 65537)] [['a']] = some [(['a'], 1, 1)] := by decide
+
+/-- **C10_chain**: a `Path` on which a prefix has already been matched (`skip > 0`, as in scope →
+resource routing) behaves exactly like a fresh `Path` holding the unprocessed rest: same verdict,
+and the new state is the old one plus the fresh result shifted by `skip` — for every path shorter
+than 64 KiB.  So all theorems above transfer to chained matching. -/
+theorem C10_chain (rd : ResourceDef) (st : PathState) (hlen : blen st.path < 65536)
+    (hskip : st.skip ≤ blen st.path) :
+    (rd.captureMatchInfo (fresh st.unprocessed) = .noMatch → rd.captureMatchInfo st = .noMatch) ∧
+    (∀ f, rd.captureMatchInfo (fresh st.unprocessed) = .matched f →
+      rd.captureMatchInfo st = .matched (shiftState st f) ∧ f.skip ≤ blen st.unprocessed) := by
+  have hu := unprocessed_blen st hskip
+  unfold ResourceDef.captureMatchInfo
+  cases hpt : rd.patType with
+  | «static» p =>
+    simp only [fresh_unprocessed]
+    cases hs : staticMatch rd.isPrefix p st.unprocessed with
+    | none => simp
+    | some len =>
+      obtain ⟨rest, hp, hn, _⟩ := (static_iff _ _ _ _).mp hs
+      have hle : len ≤ blen st.unprocessed := by rw [hn]; exact blen_le_of_append hp
+      have hnn : asU16 len = len := asU16_of_lt (by omega)
+      simp only
+      rw [commit_fresh _ len [] (by simp)]
+      refine ⟨fun h => (by cases h), ?_⟩
+      intro f hf
+      injection hf with hf
+      subst hf
+      exact ⟨commit_shift st _ len [] (by simp) (by omega), by simp only [hnn]; exact hle⟩
+  | dynamic d => exact captureDyn_shift d st hlen hskip
+  | dynamicSet ds =>
+    simp only [fresh_unprocessed]
+    cases hf : firstMatchIdx ds st.unprocessed with
+    | none => simp
+    | some i =>
+      simp only
+      cases hget : ds[i]? with
+      | none => simp
+      | some d => exact captureDyn_shift d st hlen hskip
+
+-- a chained state satisfying the hypotheses of `C10_chain` / `C10_offsets_u16`: `/app` consumed
+example : blen (PathState.mk ['/', 'a', 'p', 'p', '/', 'u'] 4 []).path < 65536 ∧
+    (PathState.mk ['/', 'a', 'p', 'p', '/', 'u'] 4 []).skip ≤ blen ['/', 'a', 'p', 'p', '/', 'u'] ∧
+    (PathState.mk ['/', 'a', 'p', 'p', '/', 'u'] 4 []).unprocessed = ['/', 'u'] := by decide
+
+/-- **C10_offsets_u16**: below 64 KiB (which `http::Uri` guarantees) no `u16` offset is
+truncated and no `u16` addition overflows, at any depth of chained matching: the step never
+panics, the invariant `skip ≤ len < 65536` is preserved, and the new `skip` is the old one plus
+the exact (untruncated) length `find_match` reports on the rest. -/
+theorem C10_offsets_u16 (rd : ResourceDef) (st : PathState) (hlen : blen st.path < 65536)
+    (hskip : st.skip ≤ blen st.path) :
+    rd.captureMatchInfo st ≠ .panic ∧
+    ∀ st', rd.captureMatchInfo st = .matched st' →
+      st'.path = st.path ∧ st'.skip ≤ blen st'.path ∧
+      ∃ n, rd.findMatch st.unprocessed = some n ∧ st'.skip = st.skip + n := by
+  have hu := unprocessed_blen st hskip
+  obtain ⟨hno, hyes⟩ := C10_chain rd st hlen hskip
+  obtain ⟨hag, hnm, hfm⟩ := C10_three_agree rd st.unprocessed
+  cases hf : rd.findMatch st.unprocessed with
+  | none =>
+    have : rd.isMatch st.unprocessed = false := by rw [hag, hf]; rfl
+    have := hno (hnm.mpr this)
+    rw [this]
+    exact ⟨by simp, by intro st' h; cases h⟩
+  | some n =>
+    obtain ⟨segs, hcap⟩ := hfm n hf
+    obtain ⟨hst, hle⟩ := hyes _ hcap
+    rw [hst]
+    refine ⟨by simp, ?_⟩
+    intro st' h
+    injection h with h
+    subst h
+    simp only at hle
+    have hnle := findMatch_le rd _ n hf
+    have hnn : asU16 n = n := asU16_of_lt (by omega)
+    refine ⟨rfl, ?_, n, rfl, ?_⟩
+    · simp only [shiftState]; omega
+    · simp only [shiftState, hnn]
+
+/-- **C10_parse_wf**: every definition that `ResourceDef::new/prefix` builds (model of `parse` /
+`construct`) has pairwise distinct group names — the side condition of `C10_sound`. -/
+theorem C10_parse_wf (isPrefix : Bool) (pats : Patterns) (rd : ResourceDef)
+    (h : parsePattern isPrefix pats = .ok rd) : DefWF rd := by
+  have hall : ∀ (ps : List (List Char)) (ds : List (DynPat × List Seg)),
+      parseAll isPrefix ps = .ok ds → ∀ x ∈ ds, DynWF x.1 := by
+    intro ps
+    induction ps with
+    | nil => intro ds h; simp only [parseAll] at h; injection h with h; subst h; simp
+    | cons p ps ih =>
+      intro ds h
+      simp only [parseAll] at h
+      split at h
+      · cases h
+      · rename_i d segs hp
+        split at h
+        · cases h
+        · rename_i rest hr
+          injection h with h
+          subst h
+          intro x hx
+          rcases List.mem_cons.mp hx with rfl | hx
+          · rcases parse_ok hp with ⟨h1, _⟩ | ⟨d', h1, _, hw, _⟩
+            · cases h1
+            · injection h1 with h1; subst h1; exact hw
+          · exact ih rest hr x hx
+      · cases h
+  unfold DefWF
+  cases pats with
+  | single p =>
+    simp only [parsePattern] at h
+    split at h
+    · cases h
+    · rename_i pt segs hp
+      injection h with h
+      subst h
+      rcases parse_ok hp with ⟨h1, _⟩ | ⟨d, h1, _, hw, _⟩
+      · simp [h1]
+      · simp only [h1]; exact hw
+  | list ps =>
+    cases ps with
+    | nil =>
+      simp only [parsePattern] at h
+      injection h with h
+      subst h
+      simp
+    | cons p ps =>
+      simp only [parsePattern] at h
+      split at h
+      · cases h
+      · rename_i ds hd
+        injection h with h
+        subst h
+        simp only
+        intro d hd'
+        obtain ⟨x, hx, rfl⟩ := List.mem_map.mp hd'
+        exact hall _ ds hd x hx
+
+/-- **C10_prefix_boundary**: a single-pattern definition built by `parse` stops only at a segment
+boundary: after a successful capture, what is left of the path is empty or starts with `/`
+(prefix resources), or is empty (full resources) — unless the pattern has a tail segment, whose
+language is "everything". -/
+theorem C10_prefix_boundary (isPrefix : Bool) (p : List Char) (rd : ResourceDef)
+    (hp : parsePattern isPrefix (.single p) = .ok rd) (path : List Char) (hlen : blen path < 65536)
+    (st : PathState) (h : rd.captureMatchInfo (fresh path) = .matched st) :
+    ∃ m rest, path = m ++ rest ∧ blen m = st.skip ∧
+      ((∃ d, rd.patType = .dynamic d ∧ d.suffix = .open) ∨
+        (if isPrefix then (rest = [] ∨ ∃ t, rest = '/' :: t) else rest = [])) := by
+  have hwf := C10_parse_wf isPrefix _ rd hp
+  obtain ⟨vals, hm, _, _⟩ := C10_sound rd hwf path hlen st h
+  simp only [parsePattern] at hp
+  split at hp
+  · cases hp
+  · rename_i pt segs hparse
+    injection hp with hp
+    subst hp
+    unfold Matches at hm
+    rcases parse_ok hparse with ⟨h1, _⟩ | ⟨d, h1, _, _, _, hsfx⟩
+    · subst h1
+      simp only at hm
+      obtain ⟨rest, hpath, hn, _, hb⟩ := hm
+      exact ⟨p, rest, hpath, hn.symm, Or.inr hb⟩
+    · subst h1
+      simp only at hm
+      obtain ⟨m, rest, hpath, _, hs, hn⟩ := hm
+      refine ⟨m, rest, hpath, hn.symm, ?_⟩
+      rcases hsfx with ho | hs'
+      · exact Or.inl ⟨d, rfl, ho⟩
+      · right
+        rw [hs'] at hs
+        cases isPrefix with
+        | true => simpa [SuffixOk] using hs
+        | false => simpa [SuffixOk] using hs
 
 end ActixModel.C10
